@@ -3,6 +3,15 @@ import json, os
 HERE = os.path.dirname(os.path.dirname(os.path.abspath(__file__)))
 props = [json.loads(l) for l in open(os.path.join(HERE, 'properties.jsonl'))]
 from manifest_table import CLAIMED, NOT_APPLICABLE
+# presentation dimensions added by the seeded rounds (DESIGN I.8), varied by every check of the family
+SUFFIX = {
+    'mc': ' Every call is additionally varied in presentation (DESIGN I.8): state objects (ints, strings, tuples, identity-compared objects), argument containers (list/tuple/set/frozenset/dict view/one-shot iterator), initial states, two-step construction via replace_labelling_function with non-state keys, a user subclass of Kripke, consistent atom renamings (True/False, near-keywords, reserved words, non-ASCII, 70-100 characters, auxiliary-label look-alikes; quoted in text mode), object/text/raw-operand formulas, the legal call forms of modelcheck, a structure completed through add_edge between two calls, formulas of nesting height 100-140.',
+    'syn': ' Formulas are built in six construction styles (constructors, raw str/bool operands, parser, overloaded operators, str-subclass names, in-place operand replacement) over atom names that include case variants of constants, keyword prefixes, reserved words and print-colliding names.',
+    'graph': ' Nodes are ints, strings, tuples, identity-compared objects, None/falsy values; arguments are given as list/tuple/set/frozenset/dict view/one-shot iterator; histories include partly consumed SCC generators.',
+    'bdd': ' Orderings are given as list / ListOrdering / Ordering; abstract variable names are mapped to concrete name pools (names containing one another, numbering past 9, 40-50 characters, non-ASCII, keyword-like) built at run time; histories also run over a ballast of 150-450 live diagrams and in fresh interpreters.',
+}
+FAMILY = {'C01': 'mc', 'C02': 'mc', 'C03': 'mc', 'C04': 'mc', 'C06': 'mc', 'C07': 'mc', 'C15': 'mc', 'C19': 'mc', 'C05': 'syn', 'C08': 'syn', 'C09': 'syn',
+          'C10': 'syn', 'C11': 'syn', 'C12': 'graph', 'C13': 'graph', 'C14': 'graph', 'C16': 'bdd', 'C17': 'bdd', 'C18': 'bdd'}
 checks = []
 for p in props:
     pid = p['id']
@@ -16,7 +25,7 @@ for p in props:
         'evidence_file': 'evidence/%s.json' % pid,
         'replay_cmd_template': './check %s --replay {path}' % pid,
         'engine': 'tlc',
-        'level_claimed': {'category': 'model_checking', 'text': c['text'], 'design_ref': c['ref']},
+        'level_claimed': {'category': 'model_checking', 'text': c['text'] + SUFFIX[FAMILY[pid]], 'design_ref': c['ref']},
         'level_note': c['note'],
         'technique': c['technique'],
     })
